@@ -8,10 +8,10 @@
  * bufferevent_get_max_to_read/write, group bucket levels, group suspended flags).
  * No oracle logic here.
  *
- * stdin : one scenario per line {"cfg":{"tickms":100,"offms":30,"nb":2},"h":[op,...]}
+ * stdin : one scenario per line {"cfg":{"tickms":100,"offms":30,"nb":2,"rfeed":1},"h":[op,...]}  (rfeed 0: peer sends nothing)
  *   ops: {"a":"setcfg","b":1,"rr":..,"rb":..,"wr":..,"wb":..}   (bytes per tick; rr=0 -> NULL)
  *        {"a":"setmax","b":1,"d":0|1,"m":bytes}
- *        {"a":"group","rr","rb","wr","wb","ms"}  {"a":"join","b"}  {"a":"leave","b"}
+ *        {"a":"group","rr","rb","wr","wb","ms"}  {"a":"gsetcfg","rr","rb","wr","wb"}  {"a":"join","b"}  {"a":"leave","b"}
  *        {"a":"dec","b","d","k"}   {"a":"adv","ms":N}   {"a":"loop"}
  * stdout: one line per scenario {"ev":[event,...]}
  */
@@ -33,7 +33,7 @@ static struct bufferevent *bev[NB + 1];
 static int peer[NB + 1];
 static struct ev_token_bucket_cfg *cfgs[64]; static int ncfgs;
 static struct bufferevent_rate_limit_group *grp;
-static int nb, tickms;
+static int nb, tickms, rfeed;
 static int64_t t0_ms;
 static FILE *out;
 static int first_ev;
@@ -59,7 +59,7 @@ static char junk[1 << 16];
 static void feed(void)
 {
 	for (int i = 1; i <= nb; i++) {
-		while (write(peer[i], junk, sizeof(junk)) > 0) ;
+		while (rfeed && write(peer[i], junk, sizeof(junk)) > 0) ;
 		struct evbuffer *o = bufferevent_get_output(bev[i]);
 		if (evbuffer_get_length(o) < (1 << 18)) {
 			/* adding data must not be logged as I/O: only deletions are (out_cb) */
@@ -100,6 +100,7 @@ static void run(jval *sc)
 	jval *c = j_get(sc, "cfg"), *h = j_get(sc, "h");
 	nb = (int)j_int(c, "nb", 2); tickms = (int)j_int(c, "tickms", 100);
 	if (nb > NB) nb = NB;
+	rfeed = (int)j_int(c, "rfeed", 1);	/* 0: the peer sends nothing (write traffic only) */
 	/* start of tick 0: a wall-clock instant that is a multiple of the tick length, plus an offset inside the tick */
 	int64_t wall_ms = (vt_now_ns + vt_wall_offset_ns) / 1000000LL;
 	t0_ms = (wall_ms / tickms + 2) * tickms;
@@ -117,7 +118,7 @@ static void run(jval *sc)
 		evbuffer_add_cb(bufferevent_get_output(bev[i]), out_cb, (void *)(intptr_t)i);
 	}
 	first_ev = 1;
-	sep(); fprintf(out, "{\"e\":\"reset\",\"nb\":%d,\"t\":0}", nb);
+	sep(); fprintf(out, "{\"e\":\"reset\",\"nb\":%d,\"rf\":%d,\"t\":0}", nb, rfeed);
 	int enabled = 0;
 	for (size_t s = 0; h && s < h->n; s++) {
 		jval *op = h->items[s];
@@ -143,6 +144,13 @@ static void run(jval *sc)
 			grp = bufferevent_rate_limit_group_new(base, cf);
 			bufferevent_rate_limit_group_set_min_share(grp, ms);
 			sep(); fprintf(out, "{\"e\":\"group\",\"rr\":%lld,\"rb\":%lld,\"wr\":%lld,\"wb\":%lld,\"ms\":%lld,\"t\":%ld}", rr, rb, wr, wb, ms, t);
+		} else if (!strcmp(a, "gsetcfg")) {
+			long long rr = j_int(op, "rr", 0), rb = j_int(op, "rb", 0), wr = j_int(op, "wr", 0), wb = j_int(op, "wb", 0);
+			struct timeval tv = { tickms / 1000, (tickms % 1000) * 1000 };
+			struct ev_token_bucket_cfg *cf = ev_token_bucket_cfg_new(rr, rb, wr, wb, &tv);
+			cfgs[ncfgs++] = cf;
+			bufferevent_rate_limit_group_set_cfg(grp, cf);
+			sep(); fprintf(out, "{\"e\":\"gsetcfg\",\"rr\":%lld,\"rb\":%lld,\"wr\":%lld,\"wb\":%lld,\"t\":%ld}", rr, rb, wr, wb, t);
 		} else if (!strcmp(a, "join")) {
 			bufferevent_add_to_rate_limit_group(bev[b], grp);
 			sep(); fprintf(out, "{\"e\":\"join\",\"b\":%d,\"t\":%ld}", b, t);
